@@ -27,6 +27,10 @@ from . import VERIF_ROOT, REPO_SRC
 
 EVIDENCE_DIR = os.path.join(VERIF_ROOT, "evidence")
 REPLAY_DIR = os.path.join(VERIF_ROOT, "replays")
+if os.path.realpath(REPO_SRC) != "/repo/src":
+    # developer runs against a scratch copy (mutants, seeded changes) must not touch the committed evidence / replays
+    EVIDENCE_DIR = os.path.join(VERIF_ROOT, ".tmp", "scratch-evidence")
+    REPLAY_DIR = os.path.join(VERIF_ROOT, ".tmp", "scratch-replays")
 FINDINGS_FILE = os.path.join(VERIF_ROOT, "KNOWN_FINDINGS.json")
 TMP_ROOT = os.path.join(VERIF_ROOT, ".tmp")
 PY = sys.executable
